@@ -548,7 +548,13 @@ META = {
         "x / x.jac, AdArray(val, jac) in that order) and a final raising else. R4: each reflected dunder stores "
         "the python symbol of its own operator and its *other* operand on a copy of self and returns that copy; "
         "the slicer arm of __matmul__ does the same on a copy of its operand with self and '@'; the evaluation "
-        "string is `self.<operand> <op> <sliced>` (pending operand on the left), taken iff an operand is pending. "
+        "string is `self.<operand> <op> <sliced>` (pending operand on the left; an operator table "
+        "{symbol: operator.<fn>} applied as TABLE[op](operand, sliced) is checked entry by entry instead), taken iff an "
+        "operand is pending (if/else, conditional expression or early return). R7: an operator that stores a pending "
+        "operand does so only after looking at an operand that is already pending (known finding D18). All methods are "
+        "analysed on normalised deep copies (private one-level helpers inlined, aliases / module constants propagated, "
+        "tuple assignments split, .format/% templates as f-strings), so behaviour-preserving refactorings do not "
+        "change the verdict. "
         "R5: transpose() swaps domain/range indices and sizes and does not carry the onto shortcut over. "
         "R6: both kernels read with the domain indices, write/size with the range indices/size and agree on the "
         "onto shortcut. Thorough tier: the R1 analysis swept over every class under numerics/ad and "
@@ -559,7 +565,7 @@ META = {
     "assumptions": ["X.copy(), copy.copy/deepcopy(X) and constructor calls return objects not aliased with X",
                     "the pending operation is applied only through the eval f-string in __matmul__",
                     "attributes of a slicer are only stored inside the class body"],
-    "technique": "CFG reaching definitions + alias classification; def-use table agreement between __init__, copy, transpose and the dunders",
+    "technique": "AST normalisation (helper inlining, copy propagation) + CFG reaching definitions + alias classification; def-use table agreement between __init__, copy, transpose and the dunders",
 }
 MIN_INSTANCES = {"R1": 7, "R2": 13, "R3": 5, "R4": 10, "R5": 5, "R6": 5, "R7": 6}
 
@@ -1042,104 +1048,164 @@ def _r2_copy(ctx: Ctx, mod, cls, meths, attr_rhs, deps, stores, ctor_params) -> 
 
 # ---------------- R4 (evaluation site) -----------------------------------------------------
 
+OPERATOR_FN = {"add": "add", "sub": "sub", "mul": "mul", "truediv": "truediv", "pow": "pow", "matmul": "matmul",
+               "floordiv": "floordiv", "mod": "mod"}
+
+
+def _application_site(mod, fn: ast.FunctionDef):
+    """Where the pending operation is applied: -> (node, left expr, right expr, operation expr, table | None).
+    Forms: eval(f"<left> {<op>} <right>")  |  TABLE[<op>](<left>, <right>) with a module-level dict
+    {symbol: operator.<function>}."""
+    for c in calls_in(fn):
+        if isinstance(c.func, ast.Name) and c.func.id == "eval" and c.args:
+            js = c.args[0]
+            if not isinstance(js, ast.JoinedStr):
+                raise Undecided(f"{CLS}.{fn.name}: eval argument is not an f-string / format of a literal template")
+            fmt = [v for v in js.values if isinstance(v, ast.FormattedValue)]
+            if len(fmt) != 1:
+                raise Undecided(f"{CLS}.{fn.name}: eval string must interpolate exactly the operation symbol")
+            text = "".join(" +__OP__+ " if isinstance(v, ast.FormattedValue) else str(v.value) for v in js.values)
+            try:
+                tree = ast.parse(text.strip(), mode="eval").body
+            except SyntaxError:
+                raise Undecided(f"{CLS}.{fn.name}: eval text does not parse as `<a> <op> <b>`")
+            if not (isinstance(tree, ast.BinOp) and isinstance(tree.left, ast.BinOp) and u(tree.left.right) == "__OP__"):
+                raise Undecided(f"{CLS}.{fn.name}: eval text is not of the form `<a> <op> <b>`")
+            return c, tree.left.left, tree.right, fmt[0].value, None
+        if isinstance(c.func, ast.Subscript) and isinstance(c.func.value, ast.Name) and len(c.args) == 2 and not c.keywords:
+            tname = c.func.value.id
+            tdef = [st for st in mod.tree.body if isinstance(st, (ast.Assign, ast.AnnAssign)) and getattr(st, "value", None) is not None
+                    and [u(t) for t in assigned_targets(st)] == [tname]]
+            if len(tdef) == 1 and isinstance(tdef[0].value, ast.Dict) and all(isinstance(k, ast.Constant) for k in tdef[0].value.keys):
+                table = {k.value: v for k, v in zip(tdef[0].value.keys, tdef[0].value.values)}
+                return c, c.args[0], c.args[1], c.func.slice, (tname, table, tdef[0])
+    return None
+
+
 def _r4_eval_site(ctx: Ctx, mod, meths):
+    from ..core.astutil import parent_map, single_assign_value
     fn = meths["__matmul__"]
-    q = f"{CLS}.__matmul__"
-    evals = [c for c in calls_in(fn) if isinstance(c.func, ast.Name) and c.func.id == "eval"]
-    if not evals:
+    site = _application_site(mod, fn)
+    if site is None:
         # the evaluation may have been moved into a (non-inlinable) helper called from __matmul__
         for c in calls_in(fn):
             if isinstance(c.func, ast.Attribute) and u(c.func.value) == "self" and c.func.attr in meths and c.func.attr != "__matmul__":
-                h = meths[c.func.attr]
-                he = [e for e in calls_in(h) if isinstance(e.func, ast.Name) and e.func.id == "eval"]
-                if he:
-                    fn, q, evals = h, f"{CLS}.{c.func.attr}", he
+                site = _application_site(mod, meths[c.func.attr])
+                if site is not None:
+                    fn = meths[c.func.attr]
                     break
-    if len(evals) != 1:
-        raise Undecided(f"{q}: expected exactly one eval(...) applying the pending operation, found {len(evals)}")
-    ev = evals[0]
-    js = ev.args[0] if ev.args else None
-    if not isinstance(js, ast.JoinedStr):
-        raise Undecided(f"{q}: eval argument is not an f-string")
-    fmt = [v for v in js.values if isinstance(v, ast.FormattedValue)]
-    if len(fmt) != 1:
-        raise Undecided(f"{q}: eval f-string must interpolate exactly the operation symbol")
-    text = "".join(" +__OP__+ " if isinstance(v, ast.FormattedValue) else str(v.value) for v in js.values)
-    try:
-        tree = ast.parse(text.strip(), mode="eval").body
-    except SyntaxError:
-        raise Undecided(f"{q}: eval text does not parse as `<a> <op> <b>`")
-    # `<left> + __OP__ + <right>` parses as ((left + __OP__) + right)
-    if not (isinstance(tree, ast.BinOp) and isinstance(tree.left, ast.BinOp) and u(tree.left.right) == "__OP__"):
-        raise Undecided(f"{q}: eval text is not of the form `<a> <op> <b>`")
-    left, right = tree.left.left, tree.right
-    opexpr = fmt[0].value
-    if not (isinstance(opexpr, ast.Attribute) and u(opexpr.value) == "self"):
-        raise Undecided(f"{q}: interpolated operation is not an attribute of self")
-    operation_attr = opexpr.attr
-    # which of the two sides is the stored operand?
+    q = f"{CLS}.{fn.name}"
+    if site is None:
+        raise Undecided(f"{CLS}.__matmul__: no site applying the pending operation (eval of an f-string / operator table) found")
+    ev, left, right, opexpr, table = site
+
+    def as_self_attr(e: ast.expr) -> str | None:
+        if isinstance(e, ast.Name):
+            v = single_assign_value(fn, e.id)
+            if v is not None:
+                e = v
+        return e.attr if isinstance(e, ast.Attribute) and u(e.value) == "self" else None
+
+    operation_attr = as_self_attr(opexpr)
+    if operation_attr is None:
+        raise Undecided(f"{q}: the applied operation `{u(opexpr)}` is not an attribute of self")
     sides = {"left": left, "right": right}
-    attr_side = [k for k, v in sides.items() if isinstance(v, ast.Attribute) and u(v.value) == "self"]
-    name_side = [k for k, v in sides.items() if isinstance(v, ast.Name)]
+    attr_side = [k for k, v in sides.items() if as_self_attr(v) is not None]
+    name_side = [k for k, v in sides.items() if isinstance(v, ast.Name) and as_self_attr(v) is None]
     if len(attr_side) != 1 or len(name_side) != 1:
-        raise Undecided(f"{q}: eval operands are not (self.<pending operand>, <local result>)")
-    operand_attr = sides[attr_side[0]].attr
+        raise Undecided(f"{q}: operands of the pending operation are not (self.<pending operand>, <local result>)")
+    operand_attr = as_self_attr(sides[attr_side[0]])
     res_var = sides[name_side[0]].id
     ok = attr_side[0] == "left"
     ctx.check("R4", ok, mod, q, ev,
               f"pending operation evaluates `{u(left)} <op> {u(right)}`; the reflected dunders store the LEFT operand "
               f"(`other <op> S @ y`), so the order must be self.{operand_attr} <op> {res_var}",
-              construct=f"eval order: {u(left)} <op> {u(right)}", facts={"left": u(left), "right": u(right)})
-    # taken iff an operand is pending
-    from ..core.astutil import parent_map
+              construct=f"eval order: {'self.' + operand_attr if ok else res_var} <op> {res_var if ok else 'self.' + operand_attr}",
+              facts={"left": u(left), "right": u(right)})
+    if table is not None:
+        tname, entries, tdef = table
+        inv = {v: k for k, v in PY_SYMBOL.items()}
+        bad = []
+        for sym, fexpr in entries.items():
+            d = dotted(fexpr)
+            if d is None or not d.startswith("operator.") or sym not in inv:
+                raise Undecided(f"{q}: entry {sym!r}: {u(fexpr)} of {tname} is not a python operator symbol mapped to operator.<function>")
+            if d.split(".")[1] != OPERATOR_FN.get(inv[sym]):
+                bad.append(f"{sym!r} -> {d}")
+        ctx.check("R4", not bad, mod, "<module>", tdef, f"operator table {tname} maps {bad}: the stored symbol is applied as a different operation",
+                  construct=f"{tname}: " + ("symbols match operator functions" if not bad else "; ".join(bad)))
+    # taken iff an operand is pending: enclosing if / conditional expression, or an early return before the site
     pm = parent_map(fn)
+    pending_attrs = (f"self.{operand_attr}", f"self.{operation_attr}")
+
+    def none_test(t: ast.expr):
+        """`self.<pending> is None` -> 'is' ; `is not None` -> 'isnot' (one leading `not` flips)."""
+        flip = False
+        for _ in range(4):
+            while isinstance(t, ast.UnaryOp) and isinstance(t.op, ast.Not):
+                t, flip = t.operand, not flip
+            if isinstance(t, ast.Name) and single_assign_value(fn, t.id) is not None:   # boolean temporary
+                t = single_assign_value(fn, t.id)
+            else:
+                break
+        if isinstance(t, ast.Compare) and len(t.ops) == 1 and u(t.left) in pending_attrs \
+                and isinstance(t.comparators[0], ast.Constant) and t.comparators[0].value is None and isinstance(t.ops[0], (ast.Is, ast.IsNot)):
+            isnot = isinstance(t.ops[0], ast.IsNot)
+            return "isnot" if isnot != flip else "is"
+        return None
+
     cur: ast.AST = ev
-    guard = None
+    form = in_body = None
+    other_returns: list[str] = []
+    guard_node = None
     while cur in pm:
         par = pm[cur]
-        if isinstance(par, ast.If):
-            guard = (par, any(cur is s or cur in ast.walk(s) for s in par.body))
+        if isinstance(par, ast.IfExp) and cur is not par.test and none_test(par.test):
+            form, in_body, guard_node = none_test(par.test), cur is par.body, par
+            other_returns = [u(par.orelse if in_body else par.body)]
+            break
+        if isinstance(par, ast.If) and none_test(par.test) and not any(cur is x for x in [par.test]):
+            in_body = any(cur is x for x in par.body)
+            form, guard_node = none_test(par.test), par
+            other = par.orelse if in_body else par.body
+            other_returns = [u(r.value) if r.value is not None else "None" for b in other for r in ast.walk(b) if isinstance(r, ast.Return)]
+            if not other:   # `if pending: return eval(...)` followed by `return sliced`
+                blk = fn.body
+                if any(x is par for x in blk):
+                    after = blk[[k for k, x in enumerate(blk) if x is par][0] + 1:]
+                    other_returns = [u(r.value) if r.value is not None else "None" for b in after for r in ast.walk(b) if isinstance(r, ast.Return)]
             break
         cur = par
-    early = False
-    if guard is None:
-        # early-return form:  if <nothing pending>: return <sliced>   ...   return eval(...)
-        evtop = [s for s in fn.body if ev in list(ast.walk(s))]
-        prev = fn.body[:fn.body.index(evtop[0])] if evtop else []
-        cand = [s for s in prev if isinstance(s, ast.If) and not s.orelse and s.body and isinstance(s.body[-1], ast.Return)
-                and isinstance(s.test, ast.Compare) and u(s.test.left) in (f"self.{operand_attr}", f"self.{operation_attr}")]
-        if len(cand) != 1:
-            raise Undecided(f"{q}: eval not under a guard on the pending operand")
-        guard, early = (cand[0], False), True
-    iff, in_body = guard
-    t = iff.test
-    form = None
-    if isinstance(t, ast.Compare) and len(t.ops) == 1 and u(t.left) in (f"self.{operand_attr}", f"self.{operation_attr}") \
-            and isinstance(t.comparators[0], ast.Constant) and t.comparators[0].value is None:
-        form = "isnot" if isinstance(t.ops[0], ast.IsNot) else "is" if isinstance(t.ops[0], ast.Is) else None
     if form is None:
-        raise Undecided(f"{q}: guard of the pending evaluation `{u(t)}` is not an `is (not) None` test of the pending state")
-    taken_when_pending = (form == "isnot") == in_body
-    other_branch = iff.orelse if in_body else iff.body
-    rest = fn.body[fn.body.index(iff) + 1:] if early else []
-    rets_other = [s for b in other_branch for s in ast.walk(b) if isinstance(s, ast.Return)]
-    plain_ok = bool(rets_other) and all(isinstance(r.value, ast.Name) and r.value.id == res_var for r in rets_other)
-    ctx.check("R4", taken_when_pending and plain_ok, mod, q, iff,
+        # early-return form:  if <nothing pending>: return <sliced>   ...   return eval(...)
+        evtop = [x for x in fn.body if ev in list(ast.walk(x))]
+        prev = fn.body[:[k for k, x in enumerate(fn.body) if x is evtop[0]][0]] if evtop else []
+        cand = [x for x in prev if isinstance(x, ast.If) and not x.orelse and x.body and isinstance(x.body[-1], ast.Return) and none_test(x.test)]
+        if len(cand) != 1:
+            raise Undecided(f"{q}: the pending operation is not applied under a recognisable `is (not) None` guard of the pending state")
+        guard_node = cand[0]
+        # the site runs when the early-return test is false
+        form, in_body = none_test(cand[0].test), False
+        other_returns = [u(r.value) if r.value is not None else "None" for r in cand[0].body if isinstance(r, ast.Return)]
+    taken_when_pending = (form == "isnot") == bool(in_body)
+    plain_ok = bool(other_returns) and all(x == res_var for x in other_returns)
+    ctx.check("R4", taken_when_pending and plain_ok, mod, q, guard_node,
               "the pending operation must be applied exactly when an operand is pending, and the plain sliced result "
-              "returned otherwise", construct=f"pending guard: {u(t)} -> eval in {'body' if in_body else 'else'}",
-              facts={"test": u(t), "eval_in_body": in_body, "other_branch_returns": [u(r) for r in rets_other]})
-    # the eval result is what is returned in that branch
-    mine = rest if early else (iff.body if in_body else iff.orelse)
-    evstmt = [s for s in mine if ev in list(ast.walk(s))]
-    rets = [s for b in mine for s in ast.walk(b) if isinstance(s, ast.Return)]
+              "returned otherwise", construct=f"pending guard: applied when pending={taken_when_pending}, otherwise returns {other_returns}",
+              facts={"form": form, "site_in_body": in_body, "other_branch_returns": other_returns})
+    # the result of the application is what is returned
+    st = ev
+    while st in pm and not isinstance(st, ast.stmt):
+        st = pm[st]
     ok_ret = False
-    if evstmt and isinstance(evstmt[0], ast.Return):
+    if isinstance(st, ast.Return):
         ok_ret = True
-    elif evstmt and isinstance(evstmt[0], ast.Assign) and isinstance(evstmt[0].targets[0], ast.Name):
-        ok_ret = any(isinstance(r.value, ast.Name) and r.value.id == evstmt[0].targets[0].id for r in rets)
-    ctx.check("R4", ok_ret, mod, q, evstmt[0] if evstmt else ev, "the result of the pending operation must be returned",
-              construct="pending result returned")
-    ctx.sample({"rule": "R4", "operand_attr": operand_attr, "operation_attr": operation_attr, "result_var": res_var})
+    elif isinstance(st, (ast.Assign, ast.AnnAssign)) and len(assigned_targets(st)) == 1 and isinstance(assigned_targets(st)[0], ast.Name):
+        tn = assigned_targets(st)[0].id
+        ok_ret = any(isinstance(r, ast.Return) and isinstance(r.value, ast.Name) and r.value.id == tn for r in walk_local(fn))
+    ctx.check("R4", ok_ret, mod, q, st, "the result of the pending operation must be returned", construct="pending result returned")
+    ctx.sample({"rule": "R4", "operand_attr": operand_attr, "operation_attr": operation_attr, "result_var": res_var,
+                "form": "operator table" if table else "eval"})
     return operand_attr, operation_attr, res_var
 
 
@@ -1494,12 +1560,15 @@ def _r6_kernels(ctx: Ctx, mod, meths, stores, deps) -> set[str]:
               f"vector kernel must read the operand at the domain indices and write at the range indices; found write "
               f"self.{wa}, read self.{ra}", construct=f"_slice_vector scatter: {u(s)}")
     vecname = u(s.targets[0].value)
-    zeros = [st for st in stmts_local(fn) if isinstance(st, ast.Assign) and u(st.targets[0]) == vecname and isinstance(st.value, ast.Call)
-             and call_name(st.value) in ("zeros", "empty", "full")]
+    def alts(e: ast.expr) -> list[ast.expr]:
+        return alts(e.body) + alts(e.orelse) if isinstance(e, ast.IfExp) else [e]
+
+    zeros = [(st, v) for st in stmts_local(fn) if isinstance(st, ast.Assign) and u(st.targets[0]) == vecname
+             for v in alts(st.value) if isinstance(v, ast.Call) and call_name(v) in ("zeros", "empty", "full")]
     if not zeros:
         raise Undecided(f"{q}: allocation of `{vecname}` not found")
-    for st in zeros:
-        shp = st.value.args[0] if st.value.args else kwarg(st.value, "shape")
+    for st, zcall in zeros:
+        shp = zcall.args[0] if zcall.args else kwarg(zcall, "shape")
         if shp is not None:
             shp = _resolve_local(fn, shp)
         while isinstance(shp, ast.BinOp) and isinstance(shp.op, ast.Add):
@@ -1507,11 +1576,11 @@ def _r6_kernels(ctx: Ctx, mod, meths, stores, deps) -> set[str]:
         first = shp.elts[0] if isinstance(shp, ast.Tuple) and shp.elts else shp
         fa = _self_attr(first) if first is not None else None
         if fa is None:
-            raise Undecided(f"{q}: allocation size `{u(st.value)}` is not an attribute of self")
-        ok = fa in rng_size and call_name(st.value) == "zeros"
+            raise Undecided(f"{q}: allocation size `{u(zcall)}` is not an attribute of self")
+        ok = fa in rng_size and call_name(zcall) == "zeros"
         ctx.check("R6", ok, mod, q, st,
-                  f"result of the vector kernel must be a zero array with self.<range size> rows ({sorted(rng_size)}); found {u(st.value)}",
-                  construct=f"_slice_vector alloc: {u(st.value)}")
+                  f"result of the vector kernel must be a zero array with self.<range size> rows ({sorted(rng_size)}); found {u(zcall)}",
+                  construct=f"_slice_vector alloc: {u(zcall)}")
     # matrix kernel: shape = (range_size, A.shape[1])
     fn = meths["_slice_matrix"]
     q = f"{CLS}._slice_matrix"
